@@ -73,8 +73,14 @@ REFUTED_BACKEND_GUARANTEES = {
         "literal): ArcVoc::get wraps it with Iri::new_unchecked, whose debug-build re-validation panics (and which is an invalid Iri in "
         "release builds)",
     "model::iri#validator-call:IriRef:call:std::convert::Into::into":
-        "rio_xml builds property IRIs by concatenating an unvalidated namespace (`xmlns:z=\"not an iri \"` + `z:p`): model::iri "
-        "panics (debug_assert) in debug builds and builds an invalid IriRef in release builds",
+        "rio_xml builds property IRIs by concatenating an unvalidated namespace (`xmlns:z=\"not an iri \"` + `z:p`); rio_turtle does not "
+        "validate the concatenation of a namespace and a prefixed name's local part either (legal Turtle/TriG `ex:a\\#b` under a `...#` "
+        "namespace, `ex:100\\%`, `ex:caf\uFFFD`, `@prefix ex: <http://example.org:> . ex:p`), and GTriG without a base (the default) "
+        "copies whatever stands between `<` and `>` (spaces, `{`, a bare `%`): model::iri panics (debug_assert) in debug builds and "
+        "builds an invalid IriRef in release builds",
+    "model::datatype#validator-call:IriRef:call:std::convert::Into::into":
+        "same unvalidated prefixed-name concatenation in datatype position (`\"x\"^^ex:a\\#b`): model::datatype panics (debug_assert, "
+        "rio/src/model.rs:135) in debug builds and builds an invalid IriRef in release builds",
 }
 # validator-call sites (X::new_unchecked(arg)): key -> (validator language obligation that discharges it, reason)
 VALIDATOR_CALLS = {
